@@ -102,7 +102,6 @@ def _converted_roles(repo) -> Set[str]:
 # directive-reachable PreferredUnits sites for which no failing input could be produced against the real program (tools/triage_w1.py);
 # they are reported as INFO, one reason each
 UNWITNESSED = {
-    'Outputs/(label from a variable)/value=ProjectNPV': 'label built by _field_label into a local variable; triage cannot locate the line by label',
     'OutputsAddOns/Adjusted Project LCOH (after incentives, grants, AddOns,etc)/value=LCOH': 'value is 0.00 in the runnable add-on example: conversion invisible',
     'Outputs/Initial geofluid availability/value=Availability': 'no alternative unit in the catalogue for MW/(kg/s)',
     'Outputs/Maximum Daily District Heating Demand/value=daily_heating_demand': 'no alternative unit in the catalogue for MWh/day',
@@ -493,6 +492,46 @@ def check_payback_na(ctx) -> None:
               f'(never turns positive)')
 
 
+def check_values_read_after_conversion(ctx, templates: List[Template]) -> None:
+    """W9: the writers convert outputs to the requested units (`self._convert_units(model)`) and then print value and CurrentUnits.
+    ConvertOutputUnits rebinds `.value`, so a local that captured a value before that call still holds the unconverted numbers:
+    printing it next to CurrentUnits states the wrong quantity."""
+    by_fn: Dict[int, List[Template]] = {}
+    for t in templates:
+        by_fn.setdefault(id(t.fn), []).append(t)
+    n = 0
+    for ts in by_fn.values():
+        fn = ts[0].fn
+        conv = [c for c in calls_in(fn.node) if isinstance(c.func, ast.Attribute) and c.func.attr == '_convert_units']
+        if not conv:
+            continue
+        n += 1
+        line = min(c.lineno for c in conv)
+        early = {}
+        for st in ast.walk(fn.node):
+            if isinstance(st, ast.Assign) and len(st.targets) == 1 and isinstance(st.targets[0], ast.Name) and st.lineno < line and \
+                    any(isinstance(a, ast.Attribute) and a.attr == 'value' for a in ast.walk(st.value)):
+                early[st.targets[0].id] = st
+        bad = None
+        for t in ts:
+            if t.call.lineno < line:
+                continue
+            for v in t.values():
+                if v.node is not None:
+                    for x in ast.walk(v.node):
+                        if isinstance(x, ast.Name) and x.id in early:
+                            bad = (t, early[x.id])
+        key = f'{fn.qualname}/values-read-after-unit-conversion'
+        if bad:
+            t, st = bad
+            ctx.bad('W9', key, t.where,
+                    f'the line prints `{st.targets[0].id}`, captured at line {st.lineno} (`{norm(st)[:70]}`) before `_convert_units` (line {line}) '
+                    f'converts the outputs: with a Units: request the number is still in the old unit while the label shows the requested one')
+        else:
+            ctx.ok('W9', key, f'{fn.module.rel}:{line}', f'{len(early)} locals hold values from before the conversion, none is printed')
+    ctx.floor('W9', n, 2, 'writers that convert units before printing')
+
+
 def run(ctx) -> None:
     ctx.rule('W1', 'on every `label: value unit` line the unit label belongs to the object whose value is printed, and for outputs it is the '
                    'CurrentUnits (which follows a Units: conversion), not PreferredUnits')
@@ -517,6 +556,13 @@ def run(ctx) -> None:
     nq = check_quantity_source_unit(ctx, 'W7')
     nq += check_value_unit_pairing(ctx, 'W7')
     ctx.floor('W7', nq, 5, 'quantity/relabel sites')
+    ctx.rule('W9', 'a value printed next to CurrentUnits is read after the writer converted the outputs, not captured before')
+    ctx.rule('W10', 'inputs are declared with CurrentUnits = PreferredUnits unless frozen with a reason: otherwise the echo converts the value a '
+                    'second time on top of the writer\'s own scaling (C06 U8)')
+    check_values_read_after_conversion(ctx, templates)
+    from gxstat.runner import Renamed as _Rn
+    from rules.c06 import check_u8
+    check_u8(_Rn(ctx, {'U8': 'W10'}))
     ctx.rule('W8', 'the `Interest Rate` line states the rate the run used: it is computed from the synchronised Discount Rate, in its own unit (shared)')
     from rules.rate_sync import check_rate_sync
     _n = check_rate_sync(ctx, 'W8', only_functions={'sync_interest_rate'})
